@@ -18,21 +18,21 @@ pub mod n6 {
     //@ include ../prelude/wire.rs
 }
 
-//@ include u1_lib.tpl
+//@ include u1_lib.tpl M=verify
 
 pub mod length {
     use super::encoding::{Default, Encoding};
     use super::*;
     use super::n6::*;
     use super::vlemmas::*;
-    //@ include u1_length.tpl
+    //@ include u1_length.tpl M=verify
 }
 
 pub mod encoding {
     use super::*;
     use super::n6::*;
     use super::vlemmas::*;
-    //@ include u1_encoding.tpl
+    //@ include u1_encoding.tpl M=verify
 }
 
 //@ tag canary
